@@ -5,5 +5,7 @@ import SecsModel.Props.C10
 #print axioms SecsModel.Props.C10.short_write_witness
 #print axioms SecsModel.Props.C10.packets_concat
 #print axioms SecsModel.Props.C10.block_resolve
+#print axioms SecsModel.Props.C10.queue_blocks
 #print axioms SecsModel.Props.C10.queue_in_order
+#print axioms SecsModel.Props.C10.returning_loop_strands_queue
 #print axioms SecsModel.Props.C10.compose_with_framing
